@@ -6,9 +6,13 @@ import TenpyModel.C19.P2_Helical3
 /-!
 # C19 — property theorems, second part
 
-* `C19_multi_couplings_exact`: the box enumerated by `possible_multi_couplings` contains exactly one
-  representative of every admissible placement of the operators (completes
-  `C19_multi_couplings_exact_box`).
+* `C19_multi_couplings_exact` (+ `C19_multi_couplings_counterexample`): the box enumerated by
+  `possible_multi_couplings` contains exactly one representative of every admissible placement of the
+  operators (completes `C19_multi_couplings_exact_box`).
+* `C19_values_u`, `C19_values_masked` (+ `C19_values_masked_unrepaired_counterexample`):
+  `mps2lat_values(u=...)`, `mps2lat_values_masked` after the fix of the result shape.
+* `C19_helical_translation`, `C19_helical_couplings_exact`: the translation invariance behind
+  `HelicalLattice`.
 * `C19_pairs_<Class>`: the predefined neighbour lists are exactly the `k`-th distance shells of the
   infinite lattice, over ALL `dx ∈ ℤ^dim` (combination of `C19_pairs_*_partial` with
   `C19_pairs_*_outside_box`; `PairsExact`, `IsKthShell` in `P2_Pairs.lean`).
